@@ -24,7 +24,7 @@ import ast
 from ..model import AnchorMissing, CannotAnalyse, walk_no_nested
 from ..cfg import CFG, fmt_path
 from ..dataflow import names_in, local_defs, derives
-from .common import calls_to, site, key, stmt_of, enclosing, kwarg
+from .common import calls_to, site, key, stmt_of, enclosing, kwarg, holds_at
 
 RQ = 'gnpy.topology.request'
 EXPLANATION = (
@@ -183,6 +183,18 @@ def r1_acceptance(ctx):
                 txt = ast.unparse(d[0][1])
                 base, _, k = tab.partition('[')
                 ok = base in fwd_tabs and len(rev_tabs) == 1 and txt == f'{rev_tabs[0]}[{k}[{idx}]' and cnd in firsts
+    elif cloop is not None and isinstance(cloop.iter, ast.Call) and getattr(cloop.iter.func, 'id', '') == 'zip' and \
+            len(cloop.iter.args) == 2 and isinstance(cloop.target, ast.Tuple) and len(cloop.target.elts) == 2 and \
+            all(isinstance(e, ast.Name) for e in cloop.target.elts):
+        # the same pairing written as a parallel walk: for <cand>, <twin> in zip(<fwd table>[k], <rev table>[k])
+        cnd, twin = [e.id for e in cloop.target.elts]
+        ta, tb = (ast.unparse(a) for a in cloop.iter.args)
+        R = roles(f)
+        if 'all_fwd' in R:
+            fwd_tabs, rev_tabs = short_table_of(f, R, R['all_fwd']), short_table_of(f, R, R['all_rev'])
+            (ba, _, ka), (bb, _, kb) = ta.partition('['), tb.partition('[')
+            ok = ba in fwd_tabs and len(rev_tabs) == 1 and bb == rev_tabs[0] and ka == kb and bool(ka) and \
+                {ast.unparse(c.args[0]) for c in calls} == {cnd, twin}
     ctx.check('R1.acceptance', f'{s} reversed twin', ok, key(f, 'reversed-twin'),
               'the reversed candidate tested is not the same-index entry of the reversed-path table of the same request')
     # the reversed table is built from find_reversed_path of each path, in the same order
@@ -280,7 +292,9 @@ def r2_shrink(ctx):
               'the returned combination is not element 0 of the (checked) candidate set of the group')
     if sel:
         pv = sel[0].target.id if isinstance(sel[0].target, ast.Name) else None
-        st = find(f"V_res[{R.get('allpaths')}[id({pv})].req] = {R.get('allpaths')}[id({pv})].pth", sel[0])
+        from .common import through_locals
+        st = find(f"V_res[{R.get('allpaths')}[id({pv})].req] = {R.get('allpaths')}[id({pv})].pth",
+                  through_locals(sel[0], local_defs(f.node), keep={pv, R.get('allpaths')}))
         ok = len(st) == 1 and 'allpaths' in R
         ctx.check('R2.shrink-only', f'{site(f, sel[0])} result mapping', ok, key(f, 'result-mapping'),
                   'the path recorded for a request is not the full path of the selected short list of that same request')
@@ -293,18 +307,25 @@ def r3_raise(ctx):
     g = CFG(f.node)
     R = roles(f)
     CAND = R.get('candidates')
-    sel = [n for n in walk_no_nested(f.node) if isinstance(n, ast.If) and ast.unparse(n.test).startswith(f'{CAND}[')]
+    from ..pattern import mexpr
+    # the selection loop  for <p> in CAND[<group>][0]  is reached only with a non-empty candidate set, and the empty case raises
+    # (guard clause or two-armed if: both read off the structure)
+    sel = [(n, b) for n in walk_no_nested(f.node) if isinstance(n, ast.For) for b in [mexpr(f'{CAND}[E_k][0]', n.iter)] if b]
     ok = False
-    for n in sel:
-        if n.orelse and any(isinstance(x, ast.Raise) and 'DisjunctionError' in ast.unparse(x) for x in n.orelse) and \
-                any(isinstance(x, ast.For) for x in n.body):
-            ok = True
+    outer = None
+    if len(sel) == 1:
+        n, b = sel[0]
+        grp = f'{CAND}[{ast.unparse(b["E_k"])}]'
+        outer = enclosing(n, ast.For)
+        raises = [x for x in walk_no_nested(f.node) if isinstance(x, ast.Raise) and 'DisjunctionError' in ast.unparse(x) and
+                  f'not {grp}' in holds_at(x) and enclosing(x, ast.For) is outer]
+        ok = grp in holds_at(n) and len(raises) >= 1
     ctx.check('R3.must-raise', site(f), ok, key(f, 'empty-raises'),
               'an empty candidate set for a group does not raise DisjunctionError: overlapping or missing paths would be returned instead')
     # step 5 loops over all groups
-    lp = [n for n in walk_no_nested(f.node) if isinstance(n, ast.For) and ast.unparse(n.iter) == R['groups'] and
-          any(isinstance(x, ast.If) and ast.unparse(x.test).startswith(f'{CAND}[') for x in n.body)]
-    ctx.check('R3.must-raise', f'{site(f)} every group', len(lp) == 1 and not any(isinstance(x, (ast.Break, ast.Continue)) for x in ast.walk(lp[0])),
+    ok = outer is not None and ast.unparse(outer.iter) == R['groups'] and \
+        not any(isinstance(x, (ast.Break, ast.Continue)) and enclosing(x, ast.For) is outer for x in ast.walk(outer))
+    ctx.check('R3.must-raise', f'{site(f)} every group', ok,
               key(f, 'every-group'), 'the selection step does not visit every synchronisation group')
     ctx.need('R3.must-raise', 2)
 
